@@ -1287,6 +1287,8 @@ class MindsDBParser(Parser):
         if hasattr(p, 'id'):
             query.alias = Identifier(parts=[p.id])
         if hasattr(p, 'column_list'):
+            if not isinstance(query, Select):
+                raise ParsingException(f'Column aliases are supported only for a select: {query}')
             for i, col in enumerate(p.column_list):
                 if i >= len(query.targets):
                     break
@@ -1496,6 +1498,8 @@ class MindsDBParser(Parser):
             if len(p.identifier.parts) > 1:
                 namespace = p.identifier.parts[0]
             name = p.identifier.parts[-1]
+            if not isinstance(name, str):
+                raise ParsingException(f'Wrong function name: {p.identifier}')
         else:
             name = p.function_name
         return Function(op=name, args=args, namespace=namespace)
@@ -1899,7 +1903,11 @@ class MindsDBParser(Parser):
 
     @_('INTEGER')
     def integer(self, p):
-        return int(p[0])
+        try:
+            return int(p[0])
+        except ValueError:
+            # python limits the number of digits that can be converted
+            raise ParsingException(f'Integer is too long: {p[0][:20]}...')
 
     @_('QUOTE_STRING')
     def quote_string(self, p):
